@@ -18,7 +18,9 @@ RULE = (
     "Excluded as the property says: valid_count + plain value + propagate. Non-trivial = the case has a cell "
     "whose rows are partly valid and partly missing AND a dimension whose common category occurs in the data "
     "(so the policy difference lands in a reconstructed cell), or a multi-column fact with different missing "
-    "patterns per column. Distinct by case content."
+    "patterns per column. Distinct by case content. residues: 1..2-dimension cubes under inexact weights (0.1, 0.2, 0.3, 0.7, "
+    "1.1 ...) whose common category is absent from the data or carries no valid weight, so that the cells reconstructed by "
+    "differencing hold a rounding residue instead of an exact 0 and must still be reported missing in all three formats."
 )
 ASSUMPTIONS = c03.ASSUMPTIONS + [
     "the sentinel's value at missing cells is not asserted (an integer region legitimately truncates 99.5)",
@@ -36,6 +38,40 @@ def cases(draw, tier):
         spec["xdtypes"] = ["int64"] * len(spec["dims"])
         spec["xexplicit"] = draw(st.booleans())
         spec["args"] = draw(st.sampled_from(["fresh", "shared"]))
+    spec.pop("rma", None)
+    spec.pop("ignore", None)
+    spec["sentinel"] = draw(st.sampled_from([0, -1, 99.5]))
+    return spec
+
+
+@st.composite
+def residue_cases(draw, tier):
+    """Cells that the index cube RECONSTRUCTS by differencing and that hold no valid row, under weights whose sums
+    are inexact (0.1, 0.2, 0.3, 0.7 ...): the differenced weighted count is then a rounding residue like 2.8e-17
+    instead of 0, and the library must still report the cell missing (its adjust_zeros step exists for this)."""
+    spec = draw(c03.cases(tier, big=False, max_nd=2))
+    tries = 0
+    while (not spec["dims"] or spec["N"] < 4) and tries < 5:
+        spec = draw(c03.cases(tier, big=False, max_nd=2))
+        tries += 1
+    N = spec["N"]
+    spec["agg"] = draw(st.sampled_from(["mean", "mean", "mean", "count", "valid_count", "sum"]))
+    if spec["agg"] != "count" and spec.get("fact") is None:
+        spec["fact"] = draw(Q.fact_specs(N, dyadic=False))
+    if spec["agg"] == "count":
+        spec["fact"] = None
+    vals = draw(st.lists(st.sampled_from([0.1, 0.2, 0.3, 0.7, 1.1, 0.35, 2.3]), min_size=N, max_size=N))
+    valid = draw(st.lists(st.integers(0, 9).map(lambda x: x > 0), min_size=N, max_size=N))
+    form = draw(st.sampled_from(["nan", "tuple"]))
+    for d in spec["dims"]:
+        mode = draw(st.sampled_from(["absent", "absent", "invalid", "keep"]))
+        flat = d["data"]
+        if mode == "absent" and flat:
+            d["common"] = max(flat) + 1  # no row holds the common category: its cells are pure reconstruction
+        elif mode == "invalid" and not d["tail"]:
+            valid = [v and x != d["common"] for v, x in zip(valid, flat)]  # rows there exist but carry no valid weight
+    spec["weights"] = {"kind": "array", "dtype": "float", "form": form, "values": vals, "valid": valid,
+                       "junk": [0] * N, "as_list": False, "rough": True, "wide": False}
     spec.pop("rma", None)
     spec.pop("ignore", None)
     spec["sentinel"] = draw(st.sampled_from([0, -1, 99.5]))
@@ -213,4 +249,7 @@ def check(case, rec):
         rec.nontrivial()
 
 
-SUBS = [Sub("formats", check, strategy=cases, examples={"quick": 3000, "thorough": 100000})]
+SUBS = [
+    Sub("residues", check, strategy=residue_cases, examples={"quick": 3000, "thorough": 80000}),
+    Sub("formats", check, strategy=cases, examples={"quick": 4000, "thorough": 120000}),
+]
